@@ -54,33 +54,35 @@ Qed.
 
 Lemma v_go_history (g : go val) ops :
   (exists l, M_go_init val_eqb l = Ok g) \/ (exists n, g = M_go_auto VInt n) ->
-  go_dom val_eqb vto_Z g ops = true ->
   vgo_wf (fst (M_go_run val_eqb vto_Z g ops)) /\
   (g_mut (fst (M_go_run val_eqb vto_Z g ops)), map is_ok (snd (M_go_run val_eqb vto_Z g ops)))
     = S_go_run val_eqb (g_mut g) ops.
 Proof.
-  intros S D. apply (go_run_refines val val_eqb VInt vto_Z val_eqb_spec vto_of vof_to ops g); [|exact D].
+  intros S. apply (go_run_refines val val_eqb VInt vto_Z val_eqb_spec vto_of vof_to ops g).
   apply v_go_start_wf. exact S.
 Qed.
 
 Definition v_go_labels_laws := S_go_run_laws val val_eqb VInt vto_Z val_eqb_spec vto_of vof_to.
 Definition v_go_observe := go_observe_refines val val_eqb VInt vto_Z val_eqb_spec vto_of vof_to.
 
-(* non-vacuity: a history inside the guard that promotes an auto-integer index to a mapped one *)
-Example go_dom_example :
-  go_dom val_eqb vto_Z (M_go_auto VInt 2)
-    [OpAppend (VInt 2, KInt); OpAppend (VStr "x", KOther); OpAppend (VInt 2, KInt); OpTouch;
-     OpExtend [(VInt 7, KInt); (VStr "x", KOther); (VInt 9, KInt)]] = true /\
-  S_go_run val_eqb (map VInt (iota 2))
-    [OpAppend (VInt 2, KInt); OpAppend (VStr "x", KOther); OpAppend (VInt 2, KInt); OpTouch;
-     OpExtend [(VInt 7, KInt); (VStr "x", KOther); (VInt 9, KInt)]]
-  = ([VInt 0; VInt 1; VInt 2; VStr "x"; VInt 7], [true; true; false; true; false]).
-Proof. vm_compute. split; reflexivity. Qed.
+(* a history that promotes an auto-integer index to a mapped one, with a rejected float alias (1.0 on
+   [0,1]: the regression input of the repaired finding C02-autogo-float-append) on the way *)
+Example go_history_example :
+  let ops := [OpAppend (VInt 1, KOther); OpAppend (VInt 2, KInt); OpAppend (VStr "x", KOther);
+              OpAppend (VInt 2, KInt); OpTouch; OpExtend [(VInt 7, KInt); (VStr "x", KOther); (VInt 9, KInt)]] in
+  S_go_run val_eqb (map VInt (iota 2)) ops
+    = ([VInt 0; VInt 1; VInt 2; VStr "x"; VInt 7], [false; true; true; false; true; false]) /\
+  g_mut (fst (M_go_run val_eqb vto_Z (M_go_auto VInt 2) ops)) = [VInt 0; VInt 1; VInt 2; VStr "x"; VInt 7] /\
+  snd (M_go_run val_eqb vto_Z (M_go_auto VInt 2) ops)
+    = [Err "KeyError"; Ok tt; Ok tt; Err "KeyError"; Ok tt; Err "KeyError"].
+Proof. vm_compute. repeat split; reflexivity. Qed.
 
 Example auto_key_ok_example :
-  forallb (auto_key_ok val vto_Z 3) [(VInt 0, KInt); (VInt 2, KInt); (VInt 3, KInt); (VInt (-4), KInt); (VInt 1, KBool);
-                                       (VStr "a", KOther); (VFlt 1 2, KOther)] = true.
-Proof. reflexivity. Qed.
+  forallb (auto_key_ok val vto_Z 3) [(VInt 0, KInt); (VInt 2, KInt); (VInt 3, KInt); (VInt (-1), KInt); (VInt (-4), KInt);
+                                       (VInt 1, KBool); (VNone, KNone); (VStr "a", KOther); (VFlt 1 2, KOther);
+                                       (VInt 3, KOther)] = true /\
+  auto_key_ok val vto_Z 3 (VInt 1, KOther) = false.
+Proof. split; reflexivity. Qed.
 
 (* ---- derivations ---- *)
 Require Import Proofs.IndexBijDerive.
